@@ -349,8 +349,8 @@ def run_l3_case(ctx, spec, cid, terms, metas):
             if "unk_rand" in cats and "ref_rand" in cats:
                 kinds.append(("rr", "ref_rand", "unk_rand", False, False))
     except ValueError as e:
-        if "contains no data" in str(e):
-            ctx.bump("skipped_empty_patch")
+        if "contains no data" in str(e) or "patch centers and patch IDs with data do not match" in str(e):
+            ctx.bump("skipped_empty_patch")   # a given centre attracted no object: creation must refuse (C09/C12)
             return
         raise
     # linkage tables exactly as the code derives them
